@@ -102,6 +102,7 @@ Definition x86_masked_get : ctx_table :=
      ct_set := ct_set ctx_x86; ct_set_val := ct_set_val ctx_x86;
      ct_memo := ct_memo ctx_x86; ct_memo_cmp := ct_memo_cmp ctx_x86; ct_groups := ct_groups ctx_x86;
      ct_valid_all := ct_valid_all ctx_x86; ct_valid_default := ct_valid_default ctx_x86; ct_get_cond := ct_get_cond ctx_x86;
+     ct_fmt_prefix := ct_fmt_prefix ctx_x86; ct_fmt_zero := ct_fmt_zero ctx_x86; ct_fmt_mul := ct_fmt_mul ctx_x86;
      ct_sp_name := ct_sp_name ctx_x86; ct_ip_name := ct_ip_name ctx_x86;
      ct_sp_acc := ct_sp_acc ctx_x86; ct_ip_acc := ct_ip_acc ctx_x86;
      ct_md_get := ct_md_get ctx_x86; ct_md_valid := ct_md_valid ctx_x86; ct_md_filter := ct_md_filter ctx_x86;
@@ -125,6 +126,7 @@ Definition x86_loose_validity : ctx_table :=
      ct_memo := ct_memo ctx_x86; ct_memo_cmp := ct_memo_cmp ctx_x86; ct_groups := ct_groups ctx_x86;
      ct_valid_all := ct_valid_all ctx_x86; ct_valid_default := BOr (BVar v_contains) (BLit true);
      ct_get_cond := ct_get_cond ctx_x86;
+     ct_fmt_prefix := ct_fmt_prefix ctx_x86; ct_fmt_zero := ct_fmt_zero ctx_x86; ct_fmt_mul := ct_fmt_mul ctx_x86;
      ct_sp_name := ct_sp_name ctx_x86; ct_ip_name := ct_ip_name ctx_x86;
      ct_sp_acc := ct_sp_acc ctx_x86; ct_ip_acc := ct_ip_acc ctx_x86;
      ct_md_get := ct_md_get ctx_x86; ct_md_valid := ct_md_valid ctx_x86; ct_md_filter := ct_md_filter ctx_x86;
@@ -147,6 +149,7 @@ Definition amd64_nocase : ctx_table :=
      ct_registers := ct_registers ctx_amd64; ct_get := ct_get ctx_amd64; ct_set := ct_set ctx_amd64; ct_set_val := ct_set_val ctx_amd64;
      ct_memo := ct_memo ctx_amd64; ct_memo_cmp := 1; ct_groups := ct_groups ctx_amd64;
      ct_valid_all := ct_valid_all ctx_amd64; ct_valid_default := ct_valid_default ctx_amd64; ct_get_cond := ct_get_cond ctx_amd64;
+     ct_fmt_prefix := ct_fmt_prefix ctx_amd64; ct_fmt_zero := ct_fmt_zero ctx_amd64; ct_fmt_mul := ct_fmt_mul ctx_amd64;
      ct_sp_name := ct_sp_name ctx_amd64; ct_ip_name := ct_ip_name ctx_amd64;
      ct_sp_acc := ct_sp_acc ctx_amd64; ct_ip_acc := ct_ip_acc ctx_amd64;
      ct_md_get := ct_md_get ctx_amd64; ct_md_valid := ct_md_valid ctx_amd64; ct_md_filter := ct_md_filter ctx_amd64;
@@ -215,6 +218,7 @@ Definition arm_thumb_masked : ctx_table :=
      ct_registers := ct_registers ctx_arm; ct_get := ct_get ctx_arm; ct_set := ct_set ctx_arm; ct_set_val := ct_set_val ctx_arm;
      ct_memo := ct_memo ctx_arm; ct_memo_cmp := ct_memo_cmp ctx_arm; ct_groups := ct_groups ctx_arm;
      ct_valid_all := ct_valid_all ctx_arm; ct_valid_default := ct_valid_default ctx_arm; ct_get_cond := ct_get_cond ctx_arm;
+     ct_fmt_prefix := ct_fmt_prefix ctx_arm; ct_fmt_zero := ct_fmt_zero ctx_arm; ct_fmt_mul := ct_fmt_mul ctx_arm;
      ct_sp_name := ct_sp_name ctx_arm; ct_ip_name := ct_ip_name ctx_arm;
      ct_sp_acc := ct_sp_acc ctx_arm;
      ct_ip_acc := ALet n_pc (ACast (ALoc l_arm_pc) 32 64)
@@ -343,6 +347,7 @@ Definition sparc_before_fix : ctx_table :=
      ct_registers := ct_registers ctx_sparc; ct_get := ct_get ctx_sparc; ct_set := ct_set ctx_sparc; ct_set_val := ct_set_val ctx_sparc;
      ct_memo := []; ct_memo_cmp := 0; ct_groups := [];
      ct_valid_all := ct_valid_all ctx_sparc; ct_valid_default := ct_valid_default ctx_sparc; ct_get_cond := ct_get_cond ctx_sparc;
+     ct_fmt_prefix := ct_fmt_prefix ctx_sparc; ct_fmt_zero := ct_fmt_zero ctx_sparc; ct_fmt_mul := ct_fmt_mul ctx_sparc;
      ct_sp_name := ct_sp_name ctx_sparc; ct_ip_name := ct_ip_name ctx_sparc;
      ct_sp_acc := ct_sp_acc ctx_sparc; ct_ip_acc := ct_ip_acc ctx_sparc; ct_fields := ct_fields ctx_sparc;
      ct_md_get := ct_md_get ctx_sparc; ct_md_valid := ct_md_valid ctx_sparc; ct_md_filter := ct_md_filter ctx_sparc;
